@@ -505,7 +505,7 @@ def _tdir():
         d = tempfile.mkdtemp(prefix='c17rw')
         _TDIR[pid] = d
         atexit.register(lambda: shutil.rmtree(d, ignore_errors=True))
-        for f in ('main.c', 'util.c', 'foo.c', 'bar.c', 'v.c', 'x.c', 'alpha.c', 'zeta.c'):
+        for f in ('main.c', 'util.c', 'foo.c', 'bar.c', 'v.c', 'x.c', 'alpha.c', 'zeta.c', 'gen\\table.c', "it's.c"):
             open(os.path.join(d, f), 'w').close()
     return _TDIR[pid]
 
@@ -523,7 +523,9 @@ FOO_USES = ["common[0], 'foo.c'", "common, 'foo.c'", "'main.c', 'foo.c'", "files
 BAR_USES = ["common, 'bar.c'", "common + ['v.c'], 'bar.c'", "['main.c', 'util.c'], 'bar.c'", "files('main.c', 'util.c'), 'bar.c'", "common, extra, 'bar.c'", "'bar.c', sources : common"]
 TARGET_OPS = [('src_add', ['alpha.c']), ('src_add', ['zeta.c']), ('src_add', ['util.c']), ('src_rm', ['util.c']), ('src_rm', ['main.c']), ('src_rm', ['bar.c']),
               # several files in ONE command: they may live in different nodes (a direct argument and a shared array), which are then sorted one after the other
-              ('src_rm', ['bar.c', 'util.c']), ('src_rm', ['util.c', 'bar.c']), ('src_add', ['zeta.c', 'alpha.c'])]
+              ('src_rm', ['bar.c', 'util.c']), ('src_rm', ['util.c', 'bar.c']), ('src_add', ['zeta.c', 'alpha.c']),
+              # odd file names: a backslash followed by a letter that the language reads as an escape, a quote
+              ('src_add', ['gen\\table.c']), ('src_add', ["it's.c"])]
 
 
 def ob_target_edit():
